@@ -406,6 +406,9 @@ func (v *FnVC) applyContract(ins ssa.Instruction, contract *FuncContract, name s
 	}
 	g := v.reach[v.curBlock]
 	for _, c := range contract.Ensures {
+		if c.Kind == "proves" {
+			continue // internal postcondition: proved for the callee's body, not exported to callers
+		}
 		f, ok := v.tryEvalBool(c.E, penv)
 		if !ok {
 			continue // the clause mentions a local of the callee: not expressible at the call site (weaker assumption)
@@ -817,6 +820,10 @@ func (v *FnVC) effectClass(name string, fn *ssa.Function, c *ssa.CallCommon) int
 	inModule := func(path string) bool { return strings.HasPrefix(path, v.W.Module) }
 	if fn != nil {
 		if fn.Pkg != nil && inModule(fn.Pkg.Pkg.Path()) {
+			if v.W.obviouslyPure(fn) {
+				v.note("callee %s has no contract and is obviously pure (writes only its own locals, calls only pure code): result unknown, tracked state untouched", v.W.FuncDisplayName(fn))
+				return effNone
+			}
 			return effAll
 		}
 		if fn.Pkg == nil && fn.Parent() != nil {
